@@ -172,6 +172,14 @@ impl PidTracking {
         let max_slots = u32::from_le_bytes([data[24], data[25], data[26], data[27]]);
 
         let slot_count = max_slots as usize;
+
+        // The pids and modes arrays (4 bytes per slot each) must fit in the
+        // mapped region. A larger max_slots is corrupt; do not size the
+        // allocations below from it.
+        if slot_count > (data.len() - PID_TRACKING_HEADER_SIZE) / 8 {
+            return Self::new(0);
+        }
+
         let pids_start = PID_TRACKING_HEADER_SIZE;
         let modes_start = pids_start + slot_count * 4;
 
